@@ -225,6 +225,10 @@ pub fn cases(tier: Tier, _seed: u64) -> Vec<Case> {
             out.push(learn_case_tol(name, input.clone(), layers.clone(), nout, 3, true, 1));
         }
         out.push(standalone_case(name, input.clone(), layers.clone(), nout));
+        if full || name == "dense3-drop-second" || name == "dense-feedback-dense" {
+            out.push(learn_case(name, input.clone(), layers.clone(), nout, 0, true));
+            out.push(learn_case(name, input.clone(), layers.clone(), nout, 0, false));
+        }
     }
     out.push(control_case());
     out
